@@ -10,6 +10,6 @@ echo "== demo on changed tree:"; (cd /tmp && PYTHONPATH=$W/src /venv/bin/python 
 for Q in $P "$@"; do
   echo "== ./check $Q on changed tree:"
   REDRESS_SRC=$W/src VERIF_EVIDENCE_DIR=/tmp/ev_seed_$ID /verif/check $Q > /tmp/ev_seed_$ID.$Q.out 2>&1; echo "check exit $?"
-  grep -E "^VIOLATION|^KNOWN|^GUARD|^ENGINE" /tmp/ev_seed_$ID.$Q.out | cut -c1-230 | head -8
+  grep -E "^VIOLATION|^KNOWN|^GUARD|^ENGINE" /tmp/ev_seed_$ID.$Q.out | cut -c1-230 | head -12
   grep -E "^failed obligation|UNDECIDED" /tmp/ev_seed_$ID.$Q.out | cut -c1-230 | head -12
 done
